@@ -220,6 +220,16 @@ pub fn validate(w: &Wire, cfg: &Config, provider: &mut dyn FnMut(&Ask) -> Answer
         }
         match fk {
             FormKind::NotForm | FormKind::FormCaseVariant => {}
+            FormKind::FormOtherCharset(ref label)
+                if (["iso-2022-kr", "iso-2022-cn", "iso-2022-cn-ext", "csiso2022kr"].contains(&label.as_str()) && !w.body.is_empty())
+                    || (["iso-2022-jp", "csiso2022jp"].contains(&label.as_str())
+                        && w.body.iter().enumerate().any(|(i, b)| *b == 0x1b && !matches!(w.body.get(i + 1), Some(b'(') | Some(b'$')))) =>
+            {
+                // the two cases of a known non-UTF-8 label that need no decoder to decide: the labels whose decoder
+                // accepts nothing at all (WHATWG "replacement"), and, under the stateful ISO-2022-JP, an escape
+                // character that starts no escape sequence. Such a body is undecodable.
+                return o.fail(Stage::Body, Kind::InvalidBodyEncoding);
+            }
             FormKind::FormOtherCharset(_) => {
                 // unknown label => InvalidBodyEncoding; known non-UTF-8 label => decoding under
                 // that charset, which the statement does not cover. The caller decides with
